@@ -7,9 +7,9 @@ Component.content_line / content_lines / to_ical, Contentline.from_parts, every 
 Obligations
   order.*        with sorted=True the emitted names follow sorted_keys(), with sorted=False exactly keys(); values of one name
                  and subcomponents keep insertion order; BEGIN first, END last, same name (pyvc, from C18)
-  canonsort.*    canonsort_keys is  sorted(head, key=declared index) + sorted(tail)  with head/tail the canonical / other keys
-                 (shape of the real AST) => by the assumed contract of `sorted` the result is a function of the key SET for
-                 distinct keys: insertion-order independent; priority names first in declared order, the rest ascending
+  canonsort.*    canonsort_keys returns a permutation of the keys that does not depend on the input order (list-algebra VCs on the real body, all inputs)
+                 => with the assumed contract of `sorted` the result is a function of the key SET for distinct keys:
+                 insertion-order independent; priority names first in declared order, the rest ascending
   params.sorted  Parameters.to_ical sorts the (name, value) items when sorted (shape) => by name for distinct names
   frame.*        static "modifies {}" analysis of every function reachable from Component.to_ical (all to_ical methods,
                  property_items, content_line(s), from_parts, Parameters.to_ical, param_value, q_join, dquote, foldline,
@@ -40,28 +40,45 @@ PID = "C10"
 
 
 def canonsort_shape():
-    mod, node = source.find("caselessdict:canonsort_keys")
-    ob = Obligation(f"{PID}.canonsort.is_sorted_head_then_sorted_tail", "caselessdict:canonsort_keys", "fin", UNDECIDED, lines=source.lines_of(node))
+    """canonsort_keys returns a permutation of the keys whose order does not depend on the order of the input (distinct keys): the
+    result is a function of the key SET.  Decided on the real body by the list-algebra VCs (vc/pyvc/listalg: perm, det, noraise) for
+    all key lists and declared orders - no statement-shape rule.  (WHICH order it is belongs to C17.)"""
+    from vc.pyvc import listalg as LA
+    import z3
+    fn = "caselessdict:canonsort_keys"
+    mod, node = source.find(fn)
+    ob = Obligation(f"{PID}.canonsort.result_depends_on_the_key_set_only", fn, "z3", UNDECIDED, lines=source.lines_of(node) if node is not None else None)
     if node is None:
         ob.detail = "function not found"
         return ob
-    body = source.strip_docstring(node.body)
-    src = [ast.unparse(s) for s in body]
     try:
-        ok = len(body) == 4
-        m = body[0].targets[0].id
-        ok = ok and src[0] == f"{m} = {{k: i for i, k in enumerate(canonical_order or [])}}"
-        h, t = body[1].targets[0].id, body[2].targets[0].id
-        ok = ok and src[1] == f"{h} = [k for k in keys if k in {m}]" and src[2] == f"{t} = [k for k in keys if k not in {m}]"
-        ok = ok and src[3] == f"return sorted({h}, key=lambda k: {m}[k]) + sorted({t})"
-    except Exception:
-        ok = False
-    if ok:
-        ob.status = PROVED
-        ob.detail = ("shape matched: head = keys in canonical_order sorted by declared index, tail = other keys sorted ascending; with the "
-                     "assumed contract of sorted() the result is a function of the key set (distinct keys)")
-    else:
-        ob.detail = "canonsort_keys is no longer `sorted(head, key=index) + sorted(tail)`: outside the shape rule (the stand-in decides)"
+        params = [a.arg for a in node.args.args]
+        desc, ctx, goals = LA.vcs(node, params[0], params[1])
+    except LA.Unsupported as e:
+        ob.detail = f"outside the list algebra (filter / sorted / +): {e} (the stand-in decides)"
+        return ob
+    t0 = time.time()
+    for key in ("perm", "det", "noraise"):
+        sol = z3.Solver()
+        sol.set(timeout=10000)
+        sol.add(*ctx.hyps())
+        sol.add(z3.Not(goals[key]))
+        r = sol.check()
+        if r == z3.sat:
+            from props import C10_bnd
+            w = C10_bnd.canon_order_dependence()
+            if w:
+                ob.status, ob.detail, ob.witness, ob.replay = REFUTED, f"{key} fails for the term {desc}: {sol.model()}", w[0], {"confirmed": True, "native": w[1]}
+            else:
+                ob.detail = f"{key}: z3 model for the term {desc} not reproduced on the real function: undecided"
+            ob.seconds = time.time() - t0
+            return ob
+        if r != z3.unsat:
+            ob.detail = f"{key}: z3 {r}"
+            ob.seconds = time.time() - t0
+            return ob
+    ob.status, ob.seconds = PROVED, time.time() - t0
+    ob.detail = f"permutation, independence of the input order and no exception proved for all inputs; result term: {desc}"
     return ob
 
 
@@ -220,6 +237,11 @@ def run(rep: common.Report):
 def replay(payload: dict) -> int:
     from props import C10_bnd
     w = payload.get("witness") or {}
+    if w.get("canon_perm"):
+        from props import C10_bnd
+        r = C10_bnd.canon_order_dependence()
+        print("replay:", r[1] if r else "no violation on the current tree")
+        return 1 if r else 0
     if "seed" in w or "case" in w:
         msg = C10_bnd.replay_witness(w)
         print("replay:", msg or "no violation on the current tree")
